@@ -92,7 +92,10 @@ def cells(run):
     # R3 lifetime parameter
     for d in DERIVES:
         must = d in ("EnumIter", "FromRepr", "EnumTable")
-        for shape, gen_, bad in [("<'a>", "<'a>", "    Bad(&'a str),"), ("<'a, T>", "<'a, T: Default>", "    Bad(&'a str, T),"), ("<'a> named", "<'a>", "    Bad { s: &'a str },")]:
+        for shape, gen_, bad in [("<'a>", "<'a>", "    Bad(&'a str),"), ("<'a, T>", "<'a, T: Default>", "    Bad(&'a str, T),"), ("<'a> named", "<'a>", "    Bad { s: &'a str },"),
+                                 ("<'a> used only by a disabled variant", "<'a>", "    #[strum(disabled)]\n    Bad(&'a str),"),
+                                 ("<'a> used only by a disabled named variant", "<'a>", "    #[strum(disabled)]\n    Bad { s: &'a str },"),
+                                 ("<'a, 'b>", "<'a, 'b>", "    Bad(&'a str, &'b str),"), ("<'a: 'static>", "<'a: 'static>", "    Bad(&'a u8),")]:
             valid, _ = valid_variants(r, "EnumTable", 2)
             add("R3-lifetime", d, enum_item("E", d, [], place(r, valid, [bad], r.choice(positions)), generics=gen_), must, shape)
     # R4 repeated single-use attributes
@@ -218,7 +221,7 @@ def cells(run):
     for d in DERIVES:
         must = d == "EnumProperty"
         for shape, lit in litkinds:
-            for where in ("only", "first-key", "later-key", "later-group"):
+            for where in ("only", "first-key", "later-key", "later-group", "repeated-key", "repeated-key-across-groups"):
                 if not must and not (shape in ("float", "char") and where == "only"):
                     continue
                 if where == "only":
@@ -227,10 +230,43 @@ def cells(run):
                     A = "#[strum(props(k = %s, ok = \"s\", n = 3))]" % lit
                 elif where == "later-key":
                     A = "#[strum(props(ok = \"s\", n = 3, k = %s))]" % lit
+                elif where == "repeated-key":
+                    A = "#[strum(props(k = 6, k = %s))]" % lit
+                elif where == "repeated-key-across-groups":
+                    A = "#[strum(props(k = \"first\"))]\n    #[strum(props(other = 1, k = %s))]" % lit
                 else:
                     A = "#[strum(props(ok = \"s\"))]\n    #[strum(props(b = true), props(k = %s))]" % lit
                 valid, _ = valid_variants(r, d, 2)
                 add("R10-prop-literal", d, enum_item("E", d, [], place(r, valid, ["    %s\n    Bad," % A], r.choice(positions))), must, "%s/%s" % (shape, where))
+    # R11 other malformed attribute input: the statement's last sentence ("the macro itself never panics") is checked
+    # on these too, under the panic oracle only (whether and where they are rejected is not pinned)
+    others = [
+        ("unknown-key", "    #[strum(no_such_key)]\n    Bad,"), ("unknown-key-value", "    #[strum(no_such_key = \"v\")]\n    Bad,"),
+        ("empty-attr", "    #[strum()]\n    Bad,"), ("bare-attr", "    #[strum]\n    Bad,"), ("serialize-no-value", "    #[strum(serialize)]\n    Bad,"),
+        ("serialize-int", "    #[strum(serialize = 5)]\n    Bad,"), ("props-no-value", "    #[strum(props(a))]\n    Bad,"), ("props-empty", "    #[strum(props())]\n    Bad,"),
+        ("open-brace", "    #[strum(to_string = \"{\")]\n    Bad(u8),"), ("close-brace", "    #[strum(to_string = \"}\")]\n    Bad(u8),"),
+        ("nested-brace", "    #[strum(to_string = \"{a{b}}\")]\n    Bad { a: u8, b: u8 },"), ("empty-placeholder-tuple", "    #[strum(to_string = \"{}\")]\n    Bad(u8),"),
+        ("bad-ident-in-braces", "    #[strum(to_string = \"{1x}\")]\n    Bad { x: u8 },"), ("space-in-braces", "    #[strum(to_string = \"{a b}\")]\n    Bad { a: u8 },"),
+        ("multibyte-before-placeholder-named", "    #[strum(to_string = \"温度 {x:>5}°\")]\n    Bad { x: u8 },"), ("multibyte-before-placeholder-tuple", "    #[strum(to_string = \"é≈{0:03}\")]\n    Bad(u8),"),
+        ("unknown-field-placeholder", "    #[strum(to_string = \"{nope}\")]\n    Bad { x: u8 },"), ("index-out-of-range", "    #[strum(to_string = \"{3}\")]\n    Bad(u8),"),
+        ("default_with-not-ident", "    #[strum(default_with = \"crate::dw_a\")]\n    Bad(u8),"),
+        ("passthrough-empty", "    #[strum_discriminants()]\n    Bad,"), ("passthrough-bare", "    #[strum_discriminants]\n    Bad,"), ("passthrough-literal", "    #[strum_discriminants(5)]\n    Bad,"),
+        ("aci-non-bool", "    #[strum(ascii_case_insensitive = \"yes\")]\n    Bad,"), ("doc-non-string", "    #[doc = 5]\n    Bad,"),
+    ]
+    for d in DERIVES:
+        for shape, bad in others:
+            if d in ("VariantArray", "EnumTable") and ("(" in bad.split("\n")[-1] or "{" in bad.split("\n")[-1]):
+                continue
+            valid, _ = valid_variants(r, d, 2)
+            add("R11-other-malformed", d, enum_item("E", d, [], place(r, valid, [bad], r.choice(positions))), False, shape)
+    for d in DERIVES:
+        for shape, attrs in [("enum-unknown-key", ["#[strum(no_such_key)]"]), ("enum-crate-not-a-path", ["#[strum(crate = \"not a path!\")]"]), ("enum-crate-empty", ["#[strum(crate = \"\")]"]),
+                             ("enum-prefix-int", ["#[strum(prefix = 5)]"]), ("enum-discriminants-name-str", ["#[strum_discriminants(name = \"X\")]"]),
+                             ("enum-discriminants-derive-empty", ["#[strum_discriminants(derive())]"]), ("all-variants-disabled", [])]:
+            valid, _ = valid_variants(r, d, 2)
+            if shape == "all-variants-disabled":
+                valid = ["    #[strum(disabled)]\n    A,", "    #[strum(disabled)]\n    B,"]
+            add("R11-other-malformed", d, enum_item("E", d, attrs, valid), False, shape)
     if not thorough:
         # quick: all must-reject cells, a seeded third of the panic-only cells
         out = [c for c in out if c.must or r.random() < 0.4]
